@@ -422,7 +422,9 @@ func callSSA(i *interpreter, caller *frame, callpos token.Pos, fn *ssa.Function,
 	if fn.Parent() == nil {
 		name := fn.String()
 		if ext := lookupExternal(i, fn, name); ext != nil {
-			return ext(fr, args)
+			if r := ext(fr, args); r != (notHandled{}) {
+				return r
+			}
 		}
 		if fn.Blocks == nil {
 			if i.initMode {
